@@ -347,7 +347,7 @@ def run(tier, seed, only=None):
     pc.run_parallel(ctx, report, job, items)
     report.bounds = {'addresses': 'every instruction start, body start and entry end of 3 functions (if/else, else-less if, block, loop, nop); with and without GC removing a function', 'output sizes': 'symbolic (as in C11), so both size-LEB lengths of every resized function are covered',
                      'LEB kernel': 'all 64-bit body sizes >= 1'}
-    report.assumptions = ['address convention (LLVM): addresses are relative to the first byte of the code-section body; low_pc / sequence base = first byte after the size LEB; rows on opcode bytes; high_pc / end of sequence = end of the entry',
+    report.assumptions = ['address convention (LLVM): addresses are relative to the first byte of the code-section body; rows on opcode bytes; high_pc / end of sequence = end of the entry; low_pc / sequence base of the INPUT = first byte after the size LEB, and its image must lie inside the function\'s own output entry at or before its first emitted instruction (the range / sequence covers every instruction of that function and nothing of another one)',
                           'gimli parsing/writing, the row loop of convert_line_program and attribute walking are NOT encoded; native confirmation uses DWARF synthesised with gimli::write (vreplay dwarf)']
     report.samples = [o.as_json() for o in report.obligations[:3]]
     return report, ctx
